@@ -30,6 +30,8 @@ pub trait Scalar: Ring + Enc where for<'a> &'a Self: RingOps<Self> {
     /// number of bits operands may have when freshly loaded
     fn load_bits(big: u64) -> u64;
     fn load(rng: &mut StdRng, bits: u64) -> Option<(Self, Value)>;
+    /// a value carrying the type's large planted factor in the numerator (which = 1) or in the denominator (which = 2); rationals only
+    fn load_planted(rng: &mut StdRng, bits: u64, _which: u64) -> Option<(Self, Value)> { Self::load(rng, bits) }
     fn from_int(b: &BigInt) -> Option<Self>;
     fn witness(&self) -> Value { json!([]) }
     fn parts(&self) -> Vec<BigInt>;
@@ -83,6 +85,18 @@ macro_rules! impl_scalar_ratio { ($t:ty, $name:expr) => {
             let v = match rng.gen_range(0..3) { 0 => Ratio::from((nn, dd)), _ => Ratio::new(nn, dd) };
             Some((v, json!({"n": big_json(&n), "d": big_json(&d)})))
         }
+        // K s1 / s2 or s1 / (K s2) with K = 2^h + 1 just below the machine range and small s1, s2: the product of one of each kind has
+        // a small reduced result although the unreduced cross products leave the machine range
+        fn load_planted(rng: &mut StdRng, bits: u64, which: u64) -> Option<(Self, Value)> {
+            let h = match <$t as ToBig>::bits() { Some(n) => (n - 18) as usize, None => bits as usize };
+            let k = num_traits::pow(BigInt::from(2), h) + 1;
+            let sb = match <$t as ToBig>::bits() { Some(_) => 10, None => bits / 4 };
+            let (mut s1, mut s2) = (rand_big(rng, sb), rand_big(rng, sb).abs());
+            if s1.is_zero() { s1 = BigInt::from(1); } if s2.is_zero() { s2 = BigInt::from(1); }
+            let (n, d) = if which == 1 { (&k * &s1, s2) } else { (s1, &k * &s2) };
+            let (nn, dd) = (<$t as ToBig>::from_big(&n)?, <$t as ToBig>::from_big(&d)?);
+            Some((Ratio::new(nn, dd), json!({"n": big_json(&n), "d": big_json(&d)})))
+        }
         fn from_int(b: &BigInt) -> Option<Self> { Some(Ratio::from(<$t as ToBig>::from_big(b)?)) }
         fn witness(&self) -> Value { bezout_witness(&self.numer().to_big(), &self.denom().to_big()) }
         fn parts(&self) -> Vec<BigInt> { vec![self.numer().to_big(), self.denom().to_big()] }
@@ -90,7 +104,9 @@ macro_rules! impl_scalar_ratio { ($t:ty, $name:expr) => {
         fn safe(op: &str, x: &Self, y: &Self) -> bool {
             let (a, b, c, d) = (x.numer().to_big().abs(), x.denom().to_big().abs(), y.numer().to_big().abs(), y.denom().to_big().abs());
             let bits = <$t as ToBig>::bits();
-            match op { "mul" => fits(&(&a * &c), bits) && fits(&(&b * &d), bits) && fits(&(&a * &d), bits) && fits(&(&b * &c), bits),
+            // multiplication cross-reduces before it multiplies: it is exact whenever the reduced result is representable
+            let g = |p: &BigInt, q: &BigInt| -> BigInt { let (mut p, mut q) = (p.clone(), q.clone()); while !q.is_zero() { let r = &p % &q; p = q; q = r; } if p.is_zero() { BigInt::from(1) } else { p } };
+            match op { "mul" => { let (k, l) = (g(&a, &d), g(&b, &c)); fits(&((&a / &k) * (&c / &l)), bits) && fits(&((&b / &l) * (&d / &k)), bits) }
                        _ => fits(&(&a * &d + &c * &b), bits) && fits(&(&b * &d), bits) }
         }
         fn cmp3(a: &Self, b: &Self) -> Option<i32> {
@@ -189,7 +205,14 @@ fn history<T: Scalar>(a: &Args, h: u64, t: &mut Tracer, len: usize, bigbits: u64
                     pending.push(json!({"op":"eq","x":d2,"y":x}));
                     pending.push(json!({"op":"add","form":rng.gen_range(0..6u64),"d":d2,"x":d2,"y":y}));
                     json!({"op":"sub","form":rng.gen_range(0..6u64),"d":d2,"x":x,"y":y}) }
-                80..=87 => json!({"op":"eq","x":x,"y":y}),
+                80..=81 => { // cross-reduction: (K s1 / s2) * (s3 / (K s4)) in both orders, then the two products must compare equal
+                    let x2 = (x + 1) % NREG; let d2 = (x + 2) % NREG; let d3 = (x + 3) % NREG;
+                    pending.push(json!({"op":"eq","x":d2,"y":d3}));
+                    pending.push(json!({"op":"mul","form":rng.gen_range(0..6u64),"d":d3,"x":x2,"y":x}));
+                    pending.push(json!({"op":"mul","form":rng.gen_range(0..6u64),"d":d2,"x":x,"y":x2}));
+                    pending.push(json!({"op":"load","d":x2,"plant":2}));
+                    json!({"op":"load","d":x,"plant":1}) }
+                82..=87 => json!({"op":"eq","x":x,"y":y}),
                 88..=90 => json!({"op":"is_zero","x":x}),
                 91..=93 => json!({"op":"is_one","x":x}),
                 _ => json!({"op":"cmp","x":x,"y":y}),
@@ -215,7 +238,8 @@ fn step<T: Scalar>(rng: &mut StdRng, regs: &mut Vec<T>, mut e: Value, t: &mut Tr
     let emitted = match op.as_str() {
         "load" => {
             let mut r2 = rng.clone();
-            let got = guarded(|| T::load(&mut r2, bits));
+            let plant = e["plant"].as_u64().unwrap_or(0);
+            let got = guarded(|| if plant > 0 { T::load_planted(&mut r2, bits, plant) } else { T::load(&mut r2, bits) });
             *rng = r2;
             match got { Ok(None) => false, Ok(Some((v, raw))) => { e["raw"] = raw; store(regs, &mut e, Ok(v)) }
                         Err(m) => { e["raw"] = json!("?"); store(regs, &mut e, Err(m)) } } }
